@@ -189,14 +189,20 @@ impl<'a> Sc<'a> {
             let on_abandoned_branch_only = !found_in.is_empty() && !found_in.iter().any(|f| f.contains("(current)"));
             let searched_hex = name.split(':').nth(1).unwrap_or("").to_string();
             let mut owner_hex: Option<String> = None;
-            if t.io_type == 1 {
-                for c in w.chains.iter() {
-                    if let Some((tx, _, _)) = c.txs.iter().find(|(h, _)| hex(h.as_slice()) == t.tx_hash).map(|(_, v)| v) {
-                        if let Some(o) = tx.outputs().get(t.io_index as usize) {
-                            owner_hex = if name.starts_with("Lock") { Some(hex(o.lock().as_slice())) } else { o.type_().to_opt().map(|s| hex(s.as_slice())) };
-                        }
-                        break;
+            for c in w.chains.iter() {
+                if let Some((tx, _, _)) = c.txs.iter().find(|(h, _)| hex(h.as_slice()) == t.tx_hash).map(|(_, v)| v) {
+                    // the cell the entry is about: the output itself, or (for an input entry) the output it spends
+                    let cell = if t.io_type == 1 {
+                        tx.outputs().get(t.io_index as usize)
+                    } else {
+                        tx.input_pts_iter().nth(t.io_index as usize).and_then(|op| {
+                            w.chains.iter().find_map(|c2| c2.txs.get(&op.tx_hash()).and_then(|(ptx, _, _)| ptx.outputs().get(Unpack::<u32>::unpack(&op.index()) as usize)))
+                        })
+                    };
+                    if let Some(o) = cell {
+                        owner_hex = if name.starts_with("Lock") { Some(hex(o.lock().as_slice())) } else { o.type_().to_opt().map(|s| hex(s.as_slice())) };
                     }
+                    break;
                 }
             }
             let owner_dropped = owner_hex.as_ref().map(|o| self.dropped.iter().any(|(_, raw)| &hex(raw) == o)).unwrap_or(false);
